@@ -1961,8 +1961,13 @@ GRend(int32 grid)
     if (NULL == (gr_ptr = (gr_info_t *)HAatom_object(grid)))
         HGOTO_ERROR(DFE_GRNOTFOUND, FAIL);
 
-    if (--gr_ptr->access)
+    if (--gr_ptr->access) {
+        /* other GRstart's of this file are still active, but this id is finished:
+           it must not stay valid (and later dangle when the last GRend frees the info) */
+        if (NULL == HAremove_atom(grid))
+            HGOTO_ERROR(DFE_INTERNAL, FAIL);
         HGOTO_DONE(SUCCEED);
+    }
 
     hdf_file_id = gr_ptr->hdf_file_id;
     file_rec    = HAatom_object(hdf_file_id);
